@@ -298,7 +298,7 @@ def check_case(ctx, st, cfg, label, must_reject, tag):
                       'a well-formed file was rejected: %s' % a.message[:200], inp)
     if a.status == 'err':
         ctx.count('error:' + classify(a.message))
-    toks = L.model_tokens(a, L.known_dirs([ctx.scratch, a.here or '/']))
+    toks = L.model_tokens(a, L.known_dirs([ctx.scratch, a.here or '/', os.path.join(ctx.scratch, 'inc_%s' % tag)]))
     nontrivial = any(s.split(':')[0] in ('program', 'eventlistener', 'fcgi-program') for s, _ in cfg['sections'])
     if toks is None:
         ctx.count('not-modelled:before-parser-view')
@@ -361,7 +361,7 @@ def run(ctx):
             cfg['facts'] = {'supenv': None, 'programs': [], 'groups': [], 'listeners': [], 'fcgi': []}
         check_case(ctx, st, cfg, 'corpus:' + label, must, 'c%d' % k)
         k += 1
-    nbase = ctx.n(30, 400)
+    nbase = ctx.n(30, 250)
     for i in range(nbase):
         cfg = L.gen_config(rng, ctx.scratch, small=(i % 3 == 0))
         check_case(ctx, st, cfg, 'valid', False, 'v')
